@@ -120,6 +120,49 @@ def create_with_info(info_path, raw, workdir, form):
     return cb.loads(man.get(20))[1].get(19)
 
 
+def _feed_fifo(path, data, timeout=20.0):
+    """Writer side of a named pipe: delivers the bytes to every reader that opens the pipe within the time limit (a second reader gets the
+    same content, as from a regular file)."""
+    import threading
+    import time
+
+    def run():
+        t0 = time.time()
+        while time.time() - t0 < timeout:
+            try:
+                fd = os.open(path, os.O_WRONLY | os.O_NONBLOCK)
+            except OSError:
+                time.sleep(0.01)
+                continue
+            try:
+                os.set_blocking(fd, True)
+                view = memoryview(data)
+                while len(view):
+                    view = view[os.write(fd, view):]
+            except OSError:
+                pass
+            finally:
+                os.close(fd)
+            # the reader sees the end of the data when this side closes; leave it ample time to close its side before serving a second open
+            time.sleep(5.0)
+
+    th = threading.Thread(target=run, daemon=True)
+    th.start()
+    return th
+
+
+def _input_file(path, data, fifo):
+    """An input of the tool: a regular file, or (fifo) a named pipe - process substitution, a generator feeding the tool; a path like any other."""
+    if os.path.lexists(path):
+        os.unlink(path)
+    if fifo:
+        os.mkfifo(path)
+        _feed_fifo(path, data)
+    else:
+        with open(path, "wb") as fh:
+            fh.write(data)
+
+
 def run_encrypt(step, d, outdir, key, route, holder=None):
     """Execute one invocation; returns dict of expectations. `holder` carries the Encryptor object of the 'lib' route from step to
     step: a library user keeps one object for all its invocations (both sub-commands, both key-wrap settings)."""
@@ -132,14 +175,28 @@ def run_encrypt(step, d, outdir, key, route, holder=None):
         # a different key under the name obtained by cutting the last dotted part: it must NOT be the one that is used
         with open(os.path.join(kd, kname.rsplit(".", 1)[0] + ".bin"), "wb") as fh:
             fh.write(bytes(b ^ 0x5A for b in key))
+    fifo = bool(step.get("fifo")) and route != "lib"
     if step["sub"] == "encrypt":
         pt = shaped_plaintext(step["size"], step["salt"], step.get("shape", "rand"))
         fw = os.path.join(d, "fw.bin")
-        with open(fw, "wb") as fh:
-            fh.write(pt)
+        _input_file(fw, pt, fifo)
+        kms, used_key = sut.KMS_SCRIPT(), key
+        if step.get("kms_copy") is not None:
+            # a second installation of the stock KMS script (same file name, other directory) with its own key beside it, no context given:
+            # the script that is NAMED is the one that runs, and the key beside it is the one that encrypts
+            j = step["kms_copy"]
+            kdir = os.path.join(d, f"kms{j}")
+            os.makedirs(kdir, exist_ok=True)
+            kms = os.path.join(kdir, os.path.basename(sut.KMS_SCRIPT()))
+            if not os.path.exists(kms):
+                shutil.copy(sut.KMS_SCRIPT(), kms)
+            used_key = bytes(b ^ (0x33 * (j + 1)) for b in key)
+            with open(os.path.join(kdir, kname + ".bin"), "wb") as fh:
+                fh.write(used_key)
+            kd = None
         if route == "cli":
-            ok, r = sut.cli_ok(["encrypt", "encrypt-and-generate", "--firmware", fw, "--key-name", kname, "--key-id", str(step["kid"]) if step.get("kid_spelling", "dec") == "dec" else hex(step["kid"]), "--context", kd,
-                                "--output-dir", outdir, "--hash-alg", step["hash"], "--kms-script", sut.KMS_SCRIPT(), "--encrypt-script", sut.ENCRYPT_SCRIPT()], d)
+            ok, r = sut.cli_ok(["encrypt", "encrypt-and-generate", "--firmware", fw, "--key-name", kname, "--key-id", str(step["kid"]) if step.get("kid_spelling", "dec") == "dec" else hex(step["kid"])] + (["--context", kd] if kd else []) +
+                               ["--output-dir", outdir, "--hash-alg", step["hash"], "--kms-script", kms, "--encrypt-script", sut.ENCRYPT_SCRIPT()], d)
             if not ok:
                 raise RuntimeError(f"CLI exit {r.returncode}: {r.stderr[-300:]}")
         elif route == "lib":
@@ -147,7 +204,7 @@ def run_encrypt(step, d, outdir, key, route, holder=None):
 
             enc = _encryptor(holder)
             content, tag, info, digest, plen = enc.encrypt_and_generate(pt, kname, step["kid"], kd, SuitDigestAlgorithms(step["hash"]),
-                                                                        SuitKWAlgorithms("direct"), sut.KMS_SCRIPT())
+                                                                        SuitKWAlgorithms("direct"), kms)
             for name, data_ in (("plain_text_digest.bin", digest), ("suit_encryption_info.bin", info), ("encrypted_content.bin", tag + content)):
                 with open(os.path.join(outdir, name), "wb") as fh:
                     fh.write(data_)
@@ -157,17 +214,15 @@ def run_encrypt(step, d, outdir, key, route, holder=None):
             from suit_generator import cmd_encrypt
 
             cmd_encrypt.main(encrypt_subcommand="encrypt-and-generate", firmware=fw, key_name=kname, key_id=step["kid"], context=kd, output_dir=outdir,
-                             hash_alg=step["hash"], kw_alg="direct", kms_script=sut.KMS_SCRIPT(), encrypt_script=sut.ENCRYPT_SCRIPT())
-        return {"plaintext": pt}
+                             hash_alg=step["hash"], kw_alg="direct", kms_script=kms, encrypt_script=sut.ENCRYPT_SCRIPT())
+        return {"plaintext": pt, "key": used_key}
     blob = pbytes(28 + step["size"], step["salt"])
     ek = pbytes(step["eklen"], step["salt"] + 1)
     if step.get("ek_first") is not None and ek:
         ek = bytes([step["ek_first"]]) + ek[1:]  # wrapped keys are arbitrary bytes: also ones that begin like a CBOR null / map / string
     ef, ekf = os.path.join(d, "ef.bin"), os.path.join(d, "ek.bin")
-    with open(ef, "wb") as fh:
-        fh.write(blob)
-    with open(ekf, "wb") as fh:
-        fh.write(ek)
+    _input_file(ef, blob, fifo)
+    _input_file(ekf, ek, fifo)
     if route == "lib":
         from suit_generator.suit_encrypt_script_base import SuitKWAlgorithms
 
@@ -313,12 +368,16 @@ def judge(case, acc, ctx):
                 classes.append(f"encryptor-reused:{prev.get('kw', 'direct')}->{step.get('kw', 'direct')}")
             if i > 0 and case.get("reuse", True):
                 classes.append("reused-output-dir")
+            if step.get("fifo") and route != "lib":
+                classes.append("input-through-named-pipe")
+            if step.get("kms_copy") is not None:
+                classes.append("kms-script-copy" + (":after-another-copy" if any(s_.get("kms_copy") not in (None, step["kms_copy"]) for s_ in case["steps"][:i]) else ""))
             acc.case(nt_key=(step["sub"], size, kid_class(step["kid"]), step.get("hash"), step.get("kw"), route, i) if nt else None, classes=classes,
                      sample={k: v for k, v in case.items() if k != "key"}, sample_key=f"{step['sub']}/{route}/{i}")
             if raised is not None:
                 raise Violation(f"step {i} ({step['sub']}, size {size}, key id {step['kid']}): {type(raised).__name__}: {str(raised)[:250]}", "four consistent artifacts",
                                 bucket=f"reject:{step['sub']}:{type(raised).__name__}")
-            problems, _ = check_outputs(step, exp, outdir, key, d)
+            problems, _ = check_outputs(step, exp, outdir, exp.get("key", key), d)
             if problems:
                 raise Violation(f"step {i} ({step['sub']}, size {size}, key id {step['kid']}, {step.get('hash', step.get('kw'))}): " + "; ".join(problems[:3]),
                                 "artifacts decrypt to the plaintext / reproduce the blob and describe it", bucket=problems[0][:45])
@@ -347,9 +406,11 @@ def step_s():
     size = st.one_of(st.sampled_from(SIZES), st.integers(0, 300), st.integers(0, 20000))
     kid = st.one_of(st.sampled_from(KIDS), st.sampled_from(CLI_KIDS), st.integers(0, 2**32 - 1), st.integers(10**7, 10**8 - 1))
     enc = st.fixed_dictionaries({"sub": st.just("encrypt"), "size": size, "salt": st.integers(0, 10**6), "kid": kid, "kid_spelling": st.sampled_from(["dec", "dec", "hex"]), "shape": st.sampled_from(["rand", "rand", "rand", "intel-hex", "cbor-envelope", "text"]), "hash": st.sampled_from(list(HASHES)),
-                                 "kname": st.sampled_from(["FWENC", "FWENC", "fw_enc.v2", "a.b.c", "key 1", "FWENC_APPLICATION_GEN1"])})
+                                 "kname": st.sampled_from(["FWENC", "FWENC", "fw_enc.v2", "a.b.c", "key 1", "FWENC_APPLICATION_GEN1"]),
+                                 "fifo": st.sampled_from([False] * 7 + [True]), "kms_copy": st.sampled_from([None, None, None, None, 0, 1])})
     gen = st.fixed_dictionaries({"sub": st.just("geninfo"), "size": size, "salt": st.integers(0, 10**6), "kid": kid, "kid_spelling": st.sampled_from(["dec", "dec", "hex"]), "kw": st.sampled_from(["direct", "direct", "aes-kw-256"]),
-                                 "eklen": st.sampled_from([0, 1, 24, 40]), "ek_first": st.sampled_from([None, None, 0xF6, 0xF6, 0xF7, 0x00, 0xA0, 0x40, 0x60, 0xFF])}).map(lambda s: {**s, "eklen": max(s["eklen"], 24) if s["kw"] == "aes-kw-256" else s["eklen"]})
+                                 "eklen": st.sampled_from([0, 1, 24, 40]), "ek_first": st.sampled_from([None, None, 0xF6, 0xF6, 0xF7, 0x00, 0xA0, 0x40, 0x60, 0xFF]),
+                                 "fifo": st.sampled_from([False] * 7 + [True])}).map(lambda s: {**s, "eklen": max(s["eklen"], 24) if s["kw"] == "aes-kw-256" else s["eklen"]})
     return st.one_of(enc, enc, gen)
 
 
@@ -402,6 +463,16 @@ def run_shard(ctx, spec):
             except Violation as v:
                 if not any(f["bucket"] == v.bucket for f in acc.failures):
                     acc.fail("encrypt", case, v.observed, v.expected, bucket=v.bucket)
+    # two installations of the KMS script used in turn by one process; inputs delivered through named pipes (both sub-commands)
+    for j in range(3):
+        steps = [{"sub": "encrypt", "size": 40 + j, "salt": j, "kid": 7 + j, "hash": "sha-256", "kms_copy": (j + k) % 2, "fifo": k == 1 and route != "lib"} for k in range(3)]
+        steps.append({"sub": "geninfo", "size": 9, "salt": j, "kid": 3, "kw": "direct", "eklen": 24, "fifo": True})
+        case = {"steps": steps, "reuse": True, "route": route, "key": key}
+        try:
+            judge(case, acc, ctx)
+        except Violation as v:
+            if not any(f["bucket"] == v.bucket for f in acc.failures):
+                acc.fail("encrypt", case, v.observed, v.expected, bucket=v.bucket)
     # the key file holds 32 raw bytes - any 32 bytes: also ones that look like text, hex digits, or begin/end with white space or NUL
     key_s = st.one_of(st.binary(min_size=32, max_size=32), st.binary(min_size=32, max_size=32), st.sampled_from(SPECIAL_KEYS))
     strat = st.tuples(st.lists(step_s(), min_size=1, max_size=3), st.booleans(), key_s).map(
@@ -423,7 +494,7 @@ def replay(ctx, check, case):
 def finalize(ctx, m, ev):
     c = m["counters"]
     ev["coverage"]["exhaustive_scope"] = "size x digest algorithm x key id grid (12 x 5 x 12, plus four sizes around 1 MiB x 5) enumerated completely; sequences sampled"
-    need = ["sub:encrypt", "sub:geninfo", "route:cli", "route:lib", "reused-output-dir", "size:0", "size:65537", "kw:aes-kw-256", "kw:direct", "key-name-with-dot", "key:all-hex-digits", "key:edge-blank-or-nul", "encryptor-reused:aes-kw-256->direct", "plaintext:intel-hex", "plaintext:cbor-envelope", "wrapped-key-first-byte:f6"] + [f"hash:{h}" for h in HASHES]
+    need = ["sub:encrypt", "sub:geninfo", "route:cli", "route:lib", "reused-output-dir", "size:0", "size:65537", "kw:aes-kw-256", "kw:direct", "key-name-with-dot", "key:all-hex-digits", "key:edge-blank-or-nul", "encryptor-reused:aes-kw-256->direct", "plaintext:intel-hex", "plaintext:cbor-envelope", "wrapped-key-first-byte:f6", "input-through-named-pipe", "kms-script-copy:after-another-copy"] + [f"hash:{h}" for h in HASHES]
     for n in need:
         if not c.get(n):
             raise boot.HarnessError(f"interesting class {n} is empty")
